@@ -2,7 +2,14 @@
 import json, os, shutil
 from .. import common, family, mapcase
 from .c08 import gen_graph_case
-from .c13 import gen_star_case
+from .c13 import gen_star_case as _gen_star, expansion_size
+
+
+def gen_star_case(rng):
+    c = _gen_star(rng)
+    while expansion_size(c) > 40:
+        c = _gen_star(rng)
+    return c
 
 PROPS_FILES = ['theories/Props/C18.v']
 FINDINGS_FILES = []
